@@ -221,12 +221,27 @@ class C07(core.Check):
                             problems.append(('get_current_candle', s, tf, hook, strategy.index,
                                              {'got': list(map(float, cur)), 'want': want[-1], 'n_1m': len(ones)}))
                             return
-                    if s == strategy.symbol and strategy.timeframe != '1m' and hook in ('before', 'after'):
+                    # what the STRATEGY's own accessors hand out (self.candles, self.get_candles), at EVERY hook — fill
+                    # hooks included: whatever they remember between two reads must not outlive a change of the store
+                    if s == strategy.symbol and strategy.timeframe != '1m':
                         mine = [list(map(float, x)) for x in strategy.candles]
                         m = TFM[strategy.timeframe]
                         want = [aggregate(ones[j:j + m]) for j in range(0, len(ones), m)]
                         if mine != want:
                             problems.append(('self.candles', s, strategy.timeframe, hook, strategy.index, {'n': [len(mine), len(want)]}))
+                            return
+                    for tf in tfs[s]:
+                        m = TFM[tf]
+                        if m == 1:
+                            continue
+                        try:
+                            mine = [list(map(float, x)) for x in strategy.get_candles('Sandbox', s, tf)]
+                        except Exception as e:  # noqa
+                            problems.append(('self.get_candles-raises', s, tf, hook, strategy.index, repr(e)[:160]))
+                            return
+                        want = [aggregate(ones[j:j + m]) for j in range(0, len(ones), m)]
+                        if mine != want:
+                            problems.append(('self.get_candles', s, tf, hook, strategy.index, {'n': [len(mine), len(want)]}))
                             return
                 # stored complete 1m candles vs the (normalised) input
                 if hook in ('before',):
